@@ -448,6 +448,14 @@ example : ∀ t, readStrict "A: b\n\nC: d\n e\n\n \t\nX: y\n".toList ≠ .ok t :
     decide
   rwa [e] at this
 
+/-- `C03_reject_indent_start`: an indented `#…` line after blank / comment lines only (C03Orphan
+    `exLeadOnly`) — it is lexed as INDENT COMMENT and is not skipped as a comment line -/
+example : "expected key" ∈ (readRelaxed "\n# c\n  #x\nA: b\n".toList).2 := by
+  have := (C03_reject_indent_start exLeadOnly (by decide) (by decide) (by decide) ' ' " #x\nA: b\n".toList
+    (by decide)).2.1
+  have e : exLeadOnly.str ++ ' ' :: " #x\nA: b\n".toList = "\n# c\n  #x\nA: b\n".toList := by decide
+  rwa [e] at this
+
 /-- `C03_reject_wsline_lines`: a white-space-only line after line 2 (a blank line) of the example, and
     after line 5 (a comment line inside a paragraph) -/
 example : (∀ x, (exLines.take 2).getLast? = some x → x.isValue = false)
